@@ -249,6 +249,7 @@ def stream_scenarios(rng, cfg, tier_thorough):
 
 def make_scenarios(ctx, n_random):
     from tools.lib import c05drv as d
+    d.clean_context()       # messages are built here, in the check process' main thread
     rng = ctx.rng
     scs = []
     for cfg in STALL_CONFIGS:
@@ -327,6 +328,14 @@ def gen_info(ctx):
     return st["info"] if st and st["ok"] else None
 
 
+CONFIRM = ("witness-foreign-correlation-id",)     # a leak through thread-local state is deterministic: re-run once before reporting
+
+
+def confirmed(ctx, info, sc, sig):
+    r = execute(ctx, [sc], info, want_case=False)[0]
+    return bool(r) and any(v[0] == sig for v in r.get("violations", []))
+
+
 def collect(ctx, res, scenarios, results, model_ok):
     lits, kept = [], []
     points = {}
@@ -349,6 +358,9 @@ def collect(ctx, res, scenarios, results, model_ok):
         for fam in r["dist"]:
             res.count("family:" + fam)
         for sig, what in r["violations"]:
+            if sig.split(":")[0] in CONFIRM and not confirmed(ctx, gen_info(ctx), sc, sig):
+                ctx.notes.append("unconfirmed on re-run, dropped: %s" % sig)
+                continue
             res.violations.append({"signature": sig, "what": what, "case": sc})
         if case is None:
             continue
@@ -406,11 +418,15 @@ def search(ctx, broken):
             continue
         res.seen(sc)
         for sig, what in r["violations"]:
+            if sig.split(":")[0] in CONFIRM and not confirmed(ctx, None, sc, sig):
+                continue
             res.violations.append({"signature": sig, "what": what, "case": sc})
     return res
 
 
 def replay(ctx, case):
+    from tools.lib import c05drv as d
+    d.clean_context()
     info = gen_info(ctx)
     last = None
     for attempt in range(3):          # a reset races the server's answer: give the failure three chances
